@@ -15,7 +15,7 @@ cdef class LegacyRecordBatch:
         bytes buffer, Py_ssize_t pos, Py_ssize_t slice_end, char magic)
 
     cdef int _decompress(self, char compression_type) except -1
-    cdef int64_t _read_last_offset(self) except -1
+    cdef int64_t _read_last_offset(self) except? -1
     cdef inline int _check_bounds(
             self, Py_ssize_t pos, Py_ssize_t size) except -1
     cdef LegacyRecord _read_record(self, Py_ssize_t* read_pos)
